@@ -32,7 +32,8 @@ PROFILES = [
     # a whole spine ends (*-) in the middle of the score - the first column as often as any other - and the others go on
     ('kern_core', {'p_spine_end': 0.2, 'min_spines': 2, 'max_spines': 4, 'measures': (3, 6), 'rows': (2, 4), 'p_split': 0.1}),
     # empty measures between barlines that read the same (no numbers, or one number on all of them): neighbouring rows that are equal
-    ('kern_core', {'empty_measures': 0.45, 'bar_numbers': 0.15, 'measures': (4, 8), 'rows': (1, 2), 'max_spines': 2, 'p_split': 0.05}),
+    ('kern_core', {'empty_measures': 0.45, 'bar_numbers': 0.0, 'p_bar_type': 0.1, 'bar_variants': False, 'measures': (4, 8), 'rows': (1, 2),
+                   'max_spines': 2, 'p_split': 0.05}),
     # the same in scores with lyrics / dynamics / harmony beside the **kern spines (only the **kern spines are exported)
     ('mixed_core', {'p_spine_end': 0.25, 'min_spines': 3, 'measures': (3, 6), 'rows': (2, 3), 'p_split': 0.05}),
 ]
